@@ -254,7 +254,7 @@ func c18GenReconcile(r *Rng) c18Scn {
 		case x < 8:
 			m.Family = "fam-b"
 		}
-		m.Refs = c18GenRefs(r, 3, fmt.Sprintf("m%d.example.org", i))
+		m.Refs = c18GenRefs(r, 2, fmt.Sprintf("m%d.example.org", i)) // at most 4+3*2 = 10 resources: sort.Slice is a stable insertion sort up to 12
 		m.Paused = r.Chance(1, 20)
 		if r.Chance(1, 10) {
 			m.Requests = c18GenRules(r, 1, false)
